@@ -72,7 +72,11 @@ func startLSP(root string, clientName ...string) (*lspSession, error) {
 		cname = clientName[0]
 	}
 	ctx, cancel := context.WithCancel(context.Background())
-	ls := lsp.NewLanguageServer(ctx, &lsp.LanguageServerOptions{LogWriter: io.Discard, LogLevel: log.LevelOff})
+	opts := &lsp.LanguageServerOptions{LogWriter: io.Discard, LogLevel: log.LevelOff}
+	if os.Getenv("VERIF_LSP_TRACE") != "" {
+		opts = &lsp.LanguageServerOptions{LogWriter: os.Stderr, LogLevel: log.LevelDebug}
+	}
+	ls := lsp.NewLanguageServer(ctx, opts)
 	go ls.StartDiagnosticsWorker(ctx)
 	go ls.StartHoverWorker(ctx)
 	go ls.StartCommandWorker(ctx)
